@@ -9,7 +9,7 @@ ASSUMPTIONS = p_c07.ASSUMPTIONS
 
 
 def run(ctx):
-    p_c07.run_focus(ctx, "C08", 50, 500)
+    p_c07.run_focus(ctx, "C08", 66, 560)
 
 
 def search(ctx, broken):
